@@ -87,7 +87,7 @@ def rand_spec(r, conv, star_ok=True, big=False):
 STD_LEN = ["", "", "", "hh", "h", "l", "ll", "j", "z", "t"]
 
 
-def rand_conv(r, with_float=True, ext=False):
+def rand_conv(r, with_float=True, ext=False, wide=False):
     """one conversion: (format text, args)"""
     k = r.random()
     if k < 0.36:
@@ -102,6 +102,12 @@ def rand_conv(r, with_float=True, ext=False):
         sp, extra = rand_spec(r, "c")
         sp = sp.split(".")[0].replace("#", "").replace("0", "").replace("+", "").replace(" ", "")
         extra = extra[:1] if "*" in sp else []
+        if wide and r.random() < 0.5:
+            # %lc: code points of every encoded length, the ends of each range; a few values that are no scalar values
+            v = r.choice([65, 0x7F, 0x80, 0xE4, 0x7FF, 0x800, 0x20AC, 0xD7FF, 0xE000, 0xFFFD, 0xFFFF, 0x10000, 0x1F600, 0x10FFFF,
+                          r.randrange(0x80, 0x800), r.randrange(0x800, 0xD800), r.randrange(0x10000, 0x110000),
+                          r.choice([0xD800, 0xDFFF, 0x110000, 0x7FFFFFFF, -1])])
+            return sp + "lc", extra + [("i", v)]
         return sp + "c", extra + [("i", r.choice([65, 97, 48, 126, 32, 37, 200, 255, 1]))]
     if k < 0.55:
         sp, extra = rand_spec(r, "s")
@@ -123,16 +129,35 @@ def rand_conv(r, with_float=True, ext=False):
     return sp + conv, extra + [("d", rand_double(r))]
 
 
+WIDE = [65, 0x7F, 0x80, 0xE4, 0x7FF, 0x800, 0x20AC, 0xD7FF, 0xE000, 0xFFFD, 0xFFFF, 0x10000, 0x1F600, 0x10FFFF]
+
+
+def lc_format(r):
+    """literal text, a %lc conversion (optional '-' flag and width, also as '*'), literal text, sometimes a second conversion"""
+    fmt, args = r.choice(LITS), []
+    for _ in range(r.choice([1, 1, 2])):
+        sp = "%" + ("-" if r.random() < 0.3 else "")
+        k = r.random()
+        if k < 0.3: sp += str(r.choice([1, 2, 3, 4, 5, 8]))
+        elif k < 0.4: sp += "*"; args.append(("i", r.choice([-6, 3, 5])))
+        v = r.choice(WIDE) if r.random() < 0.6 else r.choice([r.randrange(0x80, 0x800), r.randrange(0x800, 0xD800),
+                                                               r.randrange(0x10000, 0x110000), 0xD800, 0xDFFF, 0x110000, 0x7FFFFFFF, -1])
+        fmt += (sp + "lc").encode() + r.choice(LITS); args.append(("i", v))
+    if r.random() < 0.3:
+        fmt += b"%d"; args.append(("i", r.choice([0, -7, 123456])))
+    return fmt, args
+
+
 LITS = [b"", b"", b"x", b" ", b"abc ", b"value: ", b"[", b"] ", b", ", b"0x", b"\n", b"a longer piece of literal text, "]
 
 
-def rand_format(r, nconv=None, with_float=True, ext=False):
+def rand_format(r, nconv=None, with_float=True, ext=False, wide=False):
     """(fmt bytes, args) with at most 6 integer-class and 8 double arguments"""
     nconv = nconv if nconv is not None else r.choice([1, 1, 1, 2, 2, 3, 4])
     fmt, args = r.choice(LITS), []
     for _ in range(nconv):
         for _try in range(20):
-            f, a = rand_conv(r, with_float, ext)
+            f, a = rand_conv(r, with_float, ext, wide)
             ng = sum(1 for t, _ in args + a if t != "d")
             nd = sum(1 for t, _ in args + a if t == "d")
             if ng <= 6 and nd <= 8:
@@ -245,6 +270,12 @@ def gen_cases(ctx, n_single, n_multi):
                     for v in (0.0, -0.0, 1.0, 0.5, 9.5, 9.9999995, 0.0001, 0.00009999995, 123456789.0, 1e21, 5e-324, float("inf"), float("nan")):
                         if r.random() < (0.05 if ctx.tier == "quick" else 1.0):
                             add(("[%" + fl + w + p + conv + "]").encode(), [("d", dbits(v))])
+    # %lc (wide character as UTF-8): no glibc line (the C locale has no multibyte form for them); implementation vs model
+    # vs the reference only
+    for _ in range(n_single // 20):
+        fmt, args = lc_format(r)
+        hist["lc"] = hist.get("lc", 0) + 1
+        cases.append([line("pf", fmt, args, -1)])
     for _ in range(n_single):
         add(*rand_format(r, nconv=1))
     for _ in range(n_multi):
@@ -261,7 +292,7 @@ def run(ctx):
                      "distinct by (format, arguments)")
     ctx.assumptions += ["x86-64 SysV calling convention: integer-class and double arguments of a variadic call are fetched "
                         "independently (the harness passes 6 integer-class and 8 double slots)",
-                        "%S, %lc and the %n-style conversions the library does not implement are outside the claim",
+                        "%S and the %n-style conversions are outside the claim; %lc is compared with the model and the reference only (glibc has no multibyte form for a wide character in the C locale)",
                         "glibc 2.36 prints %#g wrongly when rounding carries into a new power of ten; there the exact "
                         "big-integer reference and the Lean specification (which agree) are the arbiter"]
     exe = ctx.build_harness("c09")
